@@ -3,7 +3,7 @@
 cd "$(dirname "$0")/.." || exit 2
 bad=0
 for p in $(python3 -c "import json;print(' '.join(c['property_id'] for c in json.load(open('MANIFEST.json'))['checks']))"); do
-  out=$(RELIC_OUT=$(mktemp -d) ./bin/relicvc check "$p" 2>&1); rc=$?
+  tmp=$(mktemp -d); out=$(RELIC_OUT=$tmp ./bin/relicvc check "$p" 2>&1); rc=$?; rm -rf "$tmp"
   echo "$out" | grep "^$p \[" | sed 's/; load.*//'
   if [ $rc -ne 0 ]; then bad=1; echo "$out" | grep -v "^NOTE" | grep "FAILED\|VACUOUS\|UNBOUND\|UNSOUND\|CAP\|error" | cut -c1-260 | head -5; fi
 done
